@@ -89,7 +89,17 @@ func (e *environment) DefaultLanguage() i18n.Language {
 
 // DefaultLocale combines the default languages and countries into a locale
 func (e *environment) DefaultLocale() i18n.Locale {
-	return i18n.NewLocale(e.DefaultLanguage(), e.DefaultCountry())
+	return NewLocale(e.DefaultLanguage(), e.DefaultCountry())
+}
+
+// NewLocale returns the locale of the given language and country, or the nil locale if the language isn't a known
+// language: language codes are only checked for their length when they are read, and a locale of an unknown language
+// can't be used for anything, e.g. formatting a date with it panics.
+func NewLocale(l i18n.Language, c i18n.Country) i18n.Locale {
+	if _, err := i18n.ParseLanguage(string(l)); err != nil {
+		return i18n.NilLocale
+	}
+	return i18n.NewLocale(l, c)
 }
 
 func (e *environment) LocationResolver() LocationResolver { return nil }
@@ -139,7 +149,9 @@ func ReadEnvironment(data json.RawMessage) (Environment, error) {
 	env.timeFormat = envelope.TimeFormat
 	env.allowedLanguages = envelope.AllowedLanguages
 	env.defaultCountry = envelope.DefaultCountry
-	env.numberFormat = envelope.NumberFormat
+	if envelope.NumberFormat != nil { // an explicit null leaves the default
+		env.numberFormat = envelope.NumberFormat
+	}
 	env.inputCollation = envelope.InputCollation
 	if env.inputCollation == "" {
 		env.inputCollation = CollationDefault
